@@ -343,7 +343,13 @@ def run_job(spec):
             res['queries'] = ex.stats['queries']
             res['solver_s'] = ex.stats['solver_s']
     except (Exception, core.Unsupported, core.Inconclusive, core.Vacuous, core.PathLimit):
-        res['harness_errors'].append(traceback.format_exc()[-2000:])
+        tb = traceback.format_exc()
+        if 'JobTimeout' in tb:
+            # the alarm went off inside a ctypes call of the solver API, which re-raises it as ctypes.ArgumentError
+            res['inconclusive'].append('job exceeded its time budget of %ss (a path did not terminate in time)'
+                                       % spec.get('deadline_s', 600))
+        else:
+            res['harness_errors'].append(tb[-2000:])
     finally:
         signal.setitimer(signal.ITIMER_REAL, 0)
     res['wall_s'] = time.time() - t0
